@@ -131,6 +131,15 @@ def start_index(R, ctx):
                             if any("'.'" in op_str(a_) or '"."' in op_str(a_) for a_ in t2['args']):
                                 this_cut = True
             cut = cut and this_cut
+    # the index is the text behind the LAST `_r` of the stem: a basename or discriminant may itself contain `_r` (`web_runner_r00003`)
+    first_occ = []
+    for q in sorted(scope):
+        for bb, t in f.bodies[q].calls():
+            if re.search(r"str>?::(split_once|split|find|splitn|split_terminator)$", callee_name(t)) and any('_r' in op_str(a_) for a_ in t['args'][1:]):
+                first_occ.append((q, callee_name(t).split('::')[-1], bb))
+    R.check('R06.2', f"{b.path}|number-after-last-_r", not first_occ, "the number is cut behind the last `_r` (rsplit / rfind / rsplit_once)",
+            f"get_highest_index cuts the stem at the FIRST `_r` ({[x[1] for x in first_occ]}): with `_r` inside the basename or discriminant the remainder does not parse, the highest "
+            "index counts as 0 and a restart numbers from 1 again - rCURRENT is renamed onto / the new file truncates an earlier run's file", where=b.loc())
     R.check('R06.2', f"{b.path}|number-up-to-first-dot", bool(parses) and cut, "the parsed text is cut at the first '.'",
             "get_highest_index parses the number from the whole remainder of the file stem: for a compressed file `x_r00003.log.gz` the stem is `x_r00003.log`, `00003.log` does not parse "
             "and counts as 0 - after a restart with only compressed files the numbering restarts below them and a later compression overwrites an existing .gz", where=b.loc())
@@ -202,6 +211,13 @@ def start_table(R, ctx):
                     bad = f"start-up passes {given} instead of None (index / date must come from the directory)"
                 if nm != 'Numbers':
                     infix = eff_arg(f, c[0], 'current_infix', r'^&str$')
+                    # the current file that is looked for at start is the one this naming writes to: the constant rCURRENT for
+                    # Timestamps, the CONFIGURED current infix for TimestampsCustomFormat
+                    if nm == 'TimestampsCustomFormat' and 'current_infix' not in infix:
+                        bad = f"start with a custom current infix looks for the current file with infix {infix} instead of the configured one: the previous run's current file is not " \
+                              "rotated but truncated by the open that follows (its records are lost)"
+                    if nm == 'Timestamps' and 'rCURRENT' not in infix:
+                        bad = f"start with Naming::Timestamps looks for the current file with infix {infix} instead of rCURRENT"
                     op = [e for e in r.effects if e[0].endswith('open_log_file')]
                     if op and c01.norm(infix).replace('&', '') not in r.long(op[0][1][1]).replace('&', '') and 'rCURRENT' not in infix:
                         bad = "the file opened is not the one with the current infix"
